@@ -264,6 +264,14 @@ def diff_dumps(a, b):
         kinds.append('overloads-differ')
     if a['other_keys'] != b['other_keys']:
         kinds.append('data-kinds-differ')
+    for key, kind in (('api_thms', 'theorem-handed-out-by-get_theorem-differs'), ('api_consts', 'signature-handed-out-by-get_term_sig-differs')):
+        xa, xb = a.get(key) or {}, b.get(key) or {}
+        dn = sorted(n for n in xa if n in xb and xa[n] != xb[n])
+        # only where the tables themselves agree: otherwise the difference is already reported above
+        dn = [n for n in dn if (ta.get(n) == tb.get(n) if key == 'api_thms' else a['consts'].get(n) == b['consts'].get(n))]
+        if dn:
+            kinds.append(kind)
+            detail[key] = dn[:8]
     return kinds, detail
 
 
